@@ -87,6 +87,10 @@ def step (ws : List String) (impl : String) : Ans :=
                  else if isSplice (key :: keys) md then "C12.xtea-block-splice"
                  else "C12.xtea-forgery" }
       | _, _, _, _ => bad
+  | ["salts", _, _] =>
+      -- the salt is what ties the three cipher blocks (v1) resp. the keystream (v3) to ONE key: keys the
+      -- broker issues carry fresh random salts (12 equal draws from 32767 values do not happen)
+      { m := "distinct" }
   | ["shape", lic, p, q] =>
       match parseLic lic, bytesOfHex p, bytesOfHex q with
       | some (_, cs, _), some p, some q =>
